@@ -246,7 +246,7 @@ impl fmt::Display for QStreamId {
 pub struct InvalidStatusCode;
 
 /// HTTP status code (rfc9110).
-#[derive(Default, Copy, Clone, Eq, Hash, Ord, PartialEq, PartialOrd)]
+#[derive(Copy, Clone, Eq, Hash, Ord, PartialEq, PartialOrd)]
 pub struct StatusCode(u16);
 
 impl StatusCode {
@@ -339,7 +339,16 @@ impl FromStr for StatusCode {
     type Err = InvalidStatusCode;
 
     fn from_str(s: &str) -> Result<Self, Self::Err> {
-        Ok(Self(s.parse().map_err(|_| InvalidStatusCode)?))
+        s.parse::<u16>()
+            .map_err(|_| InvalidStatusCode)?
+            .try_into()
+    }
+}
+
+impl Default for StatusCode {
+    #[inline(always)]
+    fn default() -> Self {
+        Self::OK
     }
 }
 
